@@ -22,10 +22,33 @@ enum Status {
 
 /// wall-clock patience before a run is declared blocked on something the simulator does not model
 const STUCK_MS: u64 = 3000;
+/// how long "every simulated thread is waiting" must persist before it is reported as a deadlock
+const DEADLOCK_PATIENCE_MS: u64 = 1500;
 
 thread_local! {
     /// set while this thread executes scheduler code: its own Mutex/Condvar must reach the kernel
     static IN_SCHED: Cell<bool> = const { Cell::new(false) };
+}
+
+/// The scheduler of the simulation currently in its concurrent phase (one per process at a time).
+/// Lets FUTEX_WAKE calls made by threads the simulator does not own (helper threads a change under
+/// test may spawn) reach simulated waiters.
+static ACTIVE: std::sync::atomic::AtomicPtr<Sched> = std::sync::atomic::AtomicPtr::new(std::ptr::null_mut());
+
+pub fn publish_active(s: Option<&std::sync::Arc<Sched>>) {
+    let p = s.map(|a| std::sync::Arc::as_ptr(a) as *mut Sched).unwrap_or(std::ptr::null_mut());
+    ACTIVE.store(p, std::sync::atomic::Ordering::SeqCst);
+}
+
+/// SAFETY of the returned reference: `run_workload` keeps the Arc alive until after it has called
+/// `publish_active(None)` and joined every simulated thread.
+pub fn active() -> Option<&'static Sched> {
+    let p = ACTIVE.load(std::sync::atomic::Ordering::SeqCst);
+    if p.is_null() {
+        None
+    } else {
+        Some(unsafe { &*p })
+    }
 }
 
 pub fn in_scheduler() -> bool {
@@ -422,32 +445,56 @@ impl Sched {
         (Self::draw_gap(&mut st), switched)
     }
 
-    /// The code under test is about to block in FUTEX_WAIT on `addr` (the caller has already checked
-    /// that the futex word still holds the expected value; nobody else ran in between). Returns false
-    /// if the wait is not simulated and must go to the kernel.
-    pub fn futex_wait(&self, tid: usize, addr: usize) -> bool {
+    /// The code under test is about to block in FUTEX_WAIT on `addr` expecting the futex word to hold
+    /// `expected`. The word is read under the scheduler lock (every simulated or foreign wake also
+    /// takes that lock after storing the new value, so no wake-up is lost). Returns None if the wait
+    /// is not simulated and must go to the kernel, Some(false) if the word changed (EAGAIN),
+    /// Some(true) after having been woken.
+    pub fn futex_wait(&self, tid: usize, addr: usize, expected: u32) -> Option<bool> {
         let _g = InSched::enter();
         let mut st = self.m.lock().unwrap();
         if st.free_run || st.current != tid {
-            return false;
+            return None;
+        }
+        // SAFETY: `addr` is the futex word the caller is about to wait on; it is alive for the call.
+        let cur = unsafe { (*(addr as *const std::sync::atomic::AtomicU32)).load(std::sync::atomic::Ordering::SeqCst) };
+        if cur != expected {
+            return Some(false);
         }
         st.futex_waits += 1;
         st.status[tid] = Status::Waiting(addr);
-        match Self::choose(&mut st, tid) {
-            Some(next) => {
-                st.trace.push(next as u8);
-                st.parked_site[tid] = SITE_FUTEX;
-                Self::note_switch(&mut st, tid, next, SITE_FUTEX);
-                st.current = next;
-                self.cvs[next].notify_all();
-                st = self.park_until_current(st, tid);
-                st.parked_site[tid] = u32::MAX;
-                if st.status[tid] != Status::Finished {
-                    st.status[tid] = Status::Runnable;
+        loop {
+            match Self::choose(&mut st, tid) {
+                Some(next) => {
+                    st.trace.push(next as u8);
+                    if next != tid {
+                        st.parked_site[tid] = SITE_FUTEX;
+                        Self::note_switch(&mut st, tid, next, SITE_FUTEX);
+                        st.current = next;
+                        self.cvs[next].notify_all();
+                        st = self.park_until_current(st, tid);
+                        st.parked_site[tid] = u32::MAX;
+                    }
+                    if st.status[tid] != Status::Finished {
+                        st.status[tid] = Status::Runnable;
+                    }
+                    return Some(true);
                 }
-                true
+                None => {
+                    // Nobody is runnable. A wake may still come from a thread the simulator does not
+                    // own (a helper thread spawned by the code under test): give it a moment of wall
+                    // time before calling it a deadlock.
+                    let (g, _) = self.cvs[tid].wait_timeout(st, std::time::Duration::from_millis(DEADLOCK_PATIENCE_MS)).unwrap();
+                    st = g;
+                    if st.free_run {
+                        st.status[tid] = Status::Runnable;
+                        return Some(true);
+                    }
+                    if !st.status.iter().any(|x| *x == Status::Runnable) {
+                        self.deadlocked(&mut st);
+                    }
+                }
             }
-            None => self.deadlocked(&mut st),
         }
     }
 
@@ -464,6 +511,10 @@ impl Sched {
             if st.status[t] == Status::Waiting(addr) {
                 st.status[t] = Status::Runnable;
                 woken += 1;
+                // if that thread is the baton holder sitting out a no-one-runnable pause, let it look again
+                if st.current == t {
+                    self.cvs[t].notify_all();
+                }
             }
         }
         st.futex_wakes += woken as u64;
